@@ -20,14 +20,16 @@ def run(ctx):
             d = os.path.join(ctx.rundir, f"db{cap}_g{group_max}")
             os.environ["QV_GROUP_MAX"] = str(group_max)
             try:
-                st = ec.run_hist(ctx, d, ctx.seed + 13 * k, 250 if quick else 2500, 16, f"db:{cap}", "all")
+                # alternate: `layered` programs compared exactly, unrestricted ones graded (see engine_common.ENGINE_TB)
+                mode, fn = ("layered", "failures") if k % 2 == 1 else ("all", "graded_failures")
+                st = ec.run_hist(ctx, d, ctx.seed + 13 * k, 250 if quick else 2500, 16, f"db:{cap}", mode)
             finally:
                 os.environ.pop("QV_GROUP_MAX", None)
             dists[f"cache {cap}, group_max {group_max}"] = ec.dist(st)
             hist_total += st["histories"]
             for v in st["c01"] + st["c03"] + st["hangs"]:
                 real_fail.append({"cache": cap, "group_max": group_max, **v})
-            dis, t = ec.model_compare("C07", d, "failures")
+            dis, t = ec.model_compare("C07", d, fn)
             total += t
             dis_all += [{"cache": cap, "group_max": group_max, **x} for x in dis]
             if not samples:
@@ -47,7 +49,7 @@ def run(ctx):
     cov = vlib.proof_coverage(info, "./check C07", TB)
     cov.update({"traces_validated_against_impl": total, "evaluations": hist_total, "distinct_nontrivial": total,
                 "rule": "random programs/histories with Restart operations (drop the engine, open a new one on the same in-memory store with the same hasher seed and executors) at random positions, for each cache capacity and store grouping policy; judged by the from-scratch oracle, by the per-execution justification oracle (a query up to date before the restart must not run again) and by exact agreement with the Coq model",
-                "samples": samples, "input_distribution": dists, "disagreements_checked": len(dis_all)})
+                "samples": samples, "input_distribution": dists, "disagreements_checked": len(dis_all), "schedule_dependent_cases": ec.SCHEDULE_DEPENDENT})
     return ctx.finish("proof", cov, TB)
 
 def replay(ctx, path):
